@@ -14,6 +14,7 @@ import TzVerif.Proofs.TzifRoundTrip
 import TzVerif.Proofs.TzifReject
 import TzVerif.Proofs.TzifSound
 import TzVerif.Proofs.SrcEqTzString
+import TzVerif.Proofs.SrcEqTzFile
 
 namespace TzVerif.C08
 open TzVerif.Model TzVerif.Proofs
@@ -127,5 +128,35 @@ theorem accepted_v2_is_written (b : Bytes) (hb : ∀ x ∈ b, x < 256) (z : Time
 theorem translated_parser_is_the_model (s : TzVerif.Model.Bytes) (ext : Bool) :
     Src.parse_posix_tz s ext = TzVerif.Model.parsePosixTz s ext :=
   TzVerif.Proofs.SrcEq.parse_posix_tz_eq s ext
+
+/-! ### The same about the source text
+`TzVerif.Src.parse_tz_file` and its helpers are src/parse/tz_file.rs translated to Lean on every run
+(tools/rs2lean.py, DESIGN §13): header, data blocks, the three record loops, the indicator check, the v1 / v2+ dispatch.
+They equal the model's decoder for ALL byte lists, so the round-trip, rejection and soundness theorems of this file are
+about the code as it is now. -/
+
+theorem translated_source_is_the_model :
+    (∀ b, Src.parse_tz_file b = parseTzFile b) ∧
+    (∀ c, (Src.parse_header c).map (fun p => (SrcEq.hdrOf p.1, p.2)) = parseHeader c) ∧
+    (∀ (ts : Nat) c h, SrcEq.HeaderNonneg h →
+        (Src.read_data_blocks (ts : Int) c h).map (fun p => (SrcEq.dbOf p.1, p.2)) = readDataBlocks ts c (SrcEq.hdrOf h)) ∧
+    (∀ (ts : Nat), ts = 4 ∨ ts = 8 → ∀ d h, SrcEq.HeaderNonneg h → ∀ footer,
+        Src.DataBlocks.parse (ts : Int) d h footer = (SrcEq.dbOf d).parse ts (SrcEq.hdrOf h) footer) ∧
+    (∀ b, Src.be_signed b = beSigned b) :=
+  ⟨SrcEq.parse_tz_file_eq, SrcEq.parse_header_eq, fun ts c h hn => SrcEq.read_data_blocks_eq ts c h hn,
+   fun ts hts d h hn footer => SrcEq.data_blocks_parse_eq ts hts d h hn footer, SrcEq.be_signed_eq⟩
+
+/-- round trip and soundness about the translated decoder -/
+theorem decode_encode_v1_src (z : TimeZone) (l : Spec.Layout) (hl : Spec.LayoutOK z l) (hv : l.versionByte = 0)
+    (ht : Spec.TimesFit 32 z)
+    (hn : ∀ t ∈ z.localTimeTypes, ∃ t', LocalTimeType.new t.utOffset t.isDst t.name = .ok t') :
+    Src.parse_tz_file (Spec.encodeV1 z l) = TimeZone.new z.transitions z.localTimeTypes z.leapSeconds none := by
+  rw [SrcEq.parse_tz_file_eq]; exact decode_encode_v1 z l hl hv ht hn
+
+theorem accepted_v1_is_written_src (b : Bytes) (hb : ∀ x ∈ b, x < 256) (z : TimeZone) (h : Src.parse_tz_file b = .ok z)
+    (hv : b.getD 4 0 = 0) :
+    ∃ l : Spec.Layout, Spec.LayoutOK z l ∧ l.versionByte = 0 ∧ Spec.TimesFit 32 z ∧ z.extraRule = none ∧
+      b = Spec.encodeV1 z l :=
+  accepted_v1_is_written b hb z (SrcEq.parse_tz_file_eq b ▸ h) hv
 
 end TzVerif.C08
